@@ -148,7 +148,9 @@ CLAIMED = {
             'on every run; `table_disciplined`, `table_lin_shaped`, `table_rate_monitoring_shaped`, `checkup_getReport_shape` are re-checked on it by the kernel '
             '(decide). (3) RateMonitoring (a mutex plus atomics read outside it): writers = one critical section writing the observable atomic '
             'word at most once, readers = one load => every schedule is explained by a serial order (writers in guard-acquisition order, each '
-            'reader at its load). 33 theorems. Stage C runs the real classes with real threads under ThreadSanitizer with value-consistency checks.',
+            'reader at its load). (4) For the four check-up classes whose evaluate / timeout are translated from the source, every getReport copy '
+            'on every schedule is the initial report or the words of ONE evaluate / timeout call of today\'s source, whose status is the '
+            'property\'s classification of that value. Stage C runs the real classes with real threads under ThreadSanitizer with value-consistency checks.',
             'Residue NOT carried by the theorems: the C++ memory model, std::mutex, compiler reordering, the scheduler - only exercised by '
             'the TSan probe; the data flow of the methods is quantified under sequential contracts (witness flows given), not extracted '
             'from the source; for RateMonitoring SharedVariable<Duration> is read as one atomic word and std::atomic load/store as single sequentially consistent steps; tools/gen_locktable.py (AST -> event '
